@@ -294,13 +294,15 @@ func searchFieldId(p *thrift.BinaryProtocol, id thrift.FieldID) (tt thrift.Type,
 	// if _, err := p.ReadStructBegin(); err != nil {
 	// 	return 0, start, errNode(meta.ErrReadInput, "", err)
 	// }
+	// a missing field is inserted at the front of THIS struct (not of the root value)
+	begin := p.Read
 	for {
 		_, t, i, err := p.ReadFieldBegin()
 		if err != nil {
 			return 0, start, errNode(meta.ErrRead, "", err)
 		}
 		if t == thrift.STOP {
-			return thrift.STRUCT, start, errNotFound
+			return thrift.STRUCT, begin, errNotFound
 		}
 		if id == thrift.FieldID(i) {
 			start = p.Read
